@@ -3,7 +3,7 @@
    Reading (DESIGN C12): a target matrix is a mixing matrix, i.e. symmetric; the code tests the
    focal-vertex-first orientation of a pairing. *)
 From Coq Require Import List ZArith QArith Bool Arith Permutation.
-From GV Require Import Lib.Tree Model.DrawSet Proofs.DrawSetP Model.Mcmc Proofs.McmcP.
+From GV Require Import Lib.Tree Model.DrawSet Proofs.DrawSetP Model.Mcmc Proofs.McmcP Proofs.McmcExP.
 Import ListNotations.
 
 (* the full statement: allowed pairings only (proved below, general) AND the statistical sentence
@@ -91,8 +91,47 @@ Theorem C12_checker_iff :
 Proof. exact step_allowed_iff. Qed.
 Print Assumptions C12_checker_iff.
 
-(* non-vacuity: the example run of Props/C11.v has a non-negative target and creates edges *)
+(* non-vacuity (Proofs/McmcExP.v: x_nodes / x_edges / x_target / x_events are the network, target and oracle stream of
+   the example of Props/C11.v, a real run of /repo; x_target0 is x_target with weight 0 for the pairing
+   (1,1)-(0,0) of 2-clique edges).
+   1. The hypotheses of C12_allowed_partial (WF, NonNeg) hold for both targets.
+   2. ACCEPTED swap: under x_target the first proposal - corners (2,8) and (4,9), created pairings (2,9) and (4,8) -
+      reaches the Metropolis draw with numerator = denominator = 49/128; BOTH created pairings have positive target
+      weight (7/16 and 7/8); the uniform 0 accepts; the run accepts two swaps (its trace is not empty), the edges
+      created are exactly the proposals, every one of them is an allowed pairing, and the conclusion of
+      C12_allowed_partial (chain_allowed) holds on a chain that really creates edges.
+   3. REJECTED swap: under x_target0 the created pairing (4,8) has weight 0 (not allowed in either orientation) and
+      the swap condition refuses the same proposal BEFORE random.random() is called (PFalse); the run goes on,
+      accepts only the triangle swap, never creates (4,8), and chain_allowed holds for it.
+   4. The checker discriminates: judged against x_target0, the chain of the first run (which did create (4,8)) is
+      rejected. *)
 Example C12_nonvacuous :
+  (WF (Z.of_nat (length x_nodes)) x_edges /\ NonNeg x_target /\ NonNeg x_target0) /\
+  (swap_pre false x_nodes x_target 2 4 [mkE 2 8 0 3]%Z [mkE 4 9 0 6]%Z
+     = PNeed [mkE 2 9 0 3; mkE 4 8 0 6]%Z (49#128) (49#128) /\
+   weight x_nodes x_target (mkE 2 9 0 3)%Z = Some (7#16) /\ weight x_nodes x_target (mkE 4 8 0 6)%Z = Some (7#8) /\
+   accepts (49#128) (49#128) (0#1) = true /\
+   let '(r, sf, tr) := x_run x_target x_events in
+   r = Finished /\
+   map (fun s => created x_edges (s_es s)) tr
+     = [[mkE 2 9 0 3; mkE 4 8 0 6]; [mkE 2 9 0 3; mkE 4 8 0 6; mkE 0 5 1 0; mkE 1 3 1 1; mkE 0 4 1 0; mkE 2 3 1 1]]%Z /\
+   forallb (fun s => forallb (allowed x_nodes x_target) (created x_edges (s_es s))) tr = true /\
+   chain_allowed x_nodes x_target x_edges (map s_es tr) = true) /\
+  (swap_pre false x_nodes x_target0 2 4 [mkE 2 8 0 3]%Z [mkE 4 9 0 6]%Z = PFalse /\
+   weight x_nodes x_target0 (mkE 4 8 0 6)%Z = Some (0#1) /\ allowed x_nodes x_target0 (mkE 4 8 0 6)%Z = false /\
+   let '(r, sf, tr) := x_run x_target0 x_events0 in
+   map (fun s => created x_edges (s_es s)) tr = [[mkE 0 5 1 0; mkE 1 3 1 1; mkE 0 4 1 0; mkE 2 3 1 1]]%Z /\
+   chain_allowed x_nodes x_target0 x_edges (map s_es tr) = true) /\
+  (let '(r, sf, tr) := x_run x_target x_events in
+   chain_allowed x_nodes x_target0 x_edges (map s_es tr) = false).
+Proof.
+  split; [exact (conj x_wf (conj x_target_nonneg x_target0_nonneg)) |].
+  vm_compute. repeat split; reflexivity.
+Qed.
+
+(* the checker alone on a hand-written 4-vertex transition: accepts the two created pairings when their key has
+   weight 1/2, rejects them when it has weight 0 *)
+Example C12_nonvacuous_checker :
   let nodes := [[1;1];[1;1];[1;1];[1;1]]%Z in
   let es := [mkE 0 1 0 0; mkE 2 3 0 1]%Z in
   let tg := [[([0;1;0;1]%Z, 1#2)]] in
